@@ -434,6 +434,10 @@ class Scaling(Interp):
             if callee is not None:
                 return self.call_repo(callee, args, kw, True)
         if "." not in name:
+            # a helper defined inside the analysed function: analysed with the enclosing environment for its free names
+            loc = self.fi.nested(name) if self.depth < 3 else None
+            if loc is not None:
+                return self.call_repo(loc, args, kw, False, outer_env=env)
             tgt = self.repo.resolve_name(self.fi.module, name)
             if isinstance(tgt, FuncInfo) and self.depth < 3:
                 return self.call_repo(tgt, args, kw, False)
@@ -578,11 +582,11 @@ class Scaling(Interp):
             self.definite.append(f"`{unparse(node)[:70]}` takes the {which} of decibel values: the average of per-row dB figures is not the dB figure of the pooled power ratio (rows of unequal power: 10 dB from 20 dB and 0 dB rows is not 10*log10 of the pooled ratio), so the result is not the SNR of the data")
         return unk(f"{which} of {target.show()}")
 
-    def call_repo(self, callee: FuncInfo, args: List[SV], kw: Dict[str, SV], bound: bool) -> SV:
+    def call_repo(self, callee: FuncInfo, args: List[SV], kw: Dict[str, SV], bound: bool, outer_env: Optional[Env] = None) -> SV:
         params = list(callee.params)
         if bound and params and params[0] in ("self", "cls"):
             params = params[1:]
-        env: Env = {}
+        env: Env = dict(outer_env) if outer_env is not None else {}
         for p, a in zip(params, args):
             env[p] = a
         for k, v in kw.items():
@@ -592,6 +596,9 @@ class Scaling(Interp):
         sub = Scaling(callee, self.repo, cls=self.cls if bound else callee.cls, config=self.config, attr_values=self.attr_values, method_models=self.method_models, depth=self.depth + 1, eps_max=self.eps_max)
         sub.atom_sums = self.atom_sums
         sub.allow_floor = self.allow_floor
+        if outer_env is not None:
+            sub.complex_input = getattr(self, "complex_input", False)
+            sub._outer_bool_defs = getattr(self, "_bool_defs", None)
         sub.run(env)
         self.notes += sub.notes
         self.definite += sub.definite
